@@ -8,6 +8,7 @@ CONSTANTS
   AllowQueryX = FALSE
   AllowSweep = TRUE
   AllowDeclare = FALSE
+  AllowDetach = FALSE
   AllowInfer = TRUE
   CopyModes = {}
   UnregisteredModes = {}
